@@ -1218,10 +1218,10 @@ Proof.
   unfold jrel in Hj. rewrite join_pattern_jels in Hj. injection Hj as ->. exact Hp.
 Qed.
 
-Theorem parser_outputs_snest d cs t : nest_resource d t = true ->
+Theorem parser_outputs_snest d cs t : nest_resource d t = true -> last_comment_ok t = true ->
   exists t', parse (render cs t) = Done (t', []) /\ snest_resource d t' = true /\ map join_entry t' = t.
 Proof.
-  intros Ht. destruct (parse_render_nest_split d cs t Ht) as (t' & E & Hrel). exists t'. split; [exact E|]. split.
+  intros Ht Hlast. destruct (parse_render_nest_split d cs t Ht Hlast) as (t' & E & Hrel). exists t'. split; [exact E|]. split.
   - unfold nest_resource in Ht. rewrite <- (ml_resource_g (eokn d)) in Ht.
     apply (g_resource_rel (ml_pok (eokn d)) (snest_pok d) (srel (goodn d)) t' t (srel_snest_pok d) Hrel Ht).
   - apply jrel_entries. apply (rel_entries_mono (srel (goodn d)) jrel t' t); [intros x y [H _]; exact H | exact Hrel].
